@@ -37,6 +37,11 @@ def gen(rng, tier):
     for v in [0, 100, B - 1, big(rng, 2), big(rng, 5)]:
         for r in (0, 1, 37, 41, 42, 62, 64, 100, 200, 250, 255, 256, 257, 65536):
             reqs.append("C15 u.text %d %s" % (r, wu(v)))
+    # the same through BigInt::to_str_radix (its own entry point; C15-u1 moved the radix check into the BigUint wrapper)
+    for v in [0, 1, 35, 36, 100, B - 1, B, big(rng, 2), big(rng, 5), big(rng, 17)]:
+        for r in list(range(2, 37)) + [0, 1, 37, 41, 42, 62, 64, 100, 168, 169, 200, 250, 255, 256, 257, 65536]:
+            if r > 36 or r < 2 or rng.randrange(3) == 0 or tier == "thorough":
+                reqs.append("C15 i.text %d %s %s" % (r, rng.choice("+-"), wu(v)))
     for n in range(0, 401 if tier == "thorough" else 200):
         reqs.append("C15 gen_biguint %d %d" % (n, rng.randrange(1 << 62)))
     return reqs
